@@ -58,7 +58,9 @@ ChartChecks(e, ch) ==
        + (IF open1 THEN 0 ELSE Chk("C12.start.offset", << key, ch.st, off >>, ch.st = off))
        + Chk("C12.start.solar", << key, ch.st, ch.ss >>,
              ValidDateTime(ch.ss[1], ch.ss[2], ch.ss[3], ch.ss[4], ch.ss[5], ch.ss[6]) /\ InstOf6(ch.ss) = start)
-       + Chk("C12.daYun.count", << key, Len(D) >>, Len(D) = 10)
+       \* the offset is a function of birth, gender and school: the chart's day-boundary convention is not among them
+       + (IF Has(ch, "st2") THEN Chk("C12.start.independent-of-chart-convention", << key, ch.st, ch.st2 >>, ch.st = ch.st2) ELSE 0)
+       + Chk("C12.daYun.count", << key, Len(D) >>, Len(D) = (IF Has(ch, "dyn") THEN ch.dyn ELSE 10))
        + SumN(Len(D), LAMBDA n :
            LET i == n - 1
                v == D[n].v
